@@ -307,6 +307,7 @@ var (
 	opDec  = counterOp{"Dec", func(c *syncutils.Counter) { c.Decrease() }}
 	opSet0 = counterOp{"Set0", func(c *syncutils.Counter) { c.Set(0) }}
 	opSet2 = counterOp{"Set2", func(c *syncutils.Counter) { c.Set(2) }}
+	opSetM = counterOp{"Set-1", func(c *syncutils.Counter) { c.Set(-1) }}
 )
 
 // counterScenario: one waiter, updater threads with scripts, start value.
@@ -552,6 +553,9 @@ func main() {
 			counterScenario(wk, 2, false, []counterOp{opDec, opDec}, []counterOp{opInc}),
 			counterScenario(wk, 0, false, []counterOp{opInc, opDec}, []counterOp{opInc}),
 			counterScenario(wk, 1, false, []counterOp{opSet0}, []counterOp{opSet2}),
+			// through negative values: the condition can start to hold on the way up as well as on the way down
+			counterScenario(wk, 1, false, []counterOp{opDec, opDec}, []counterOp{opInc}),
+			counterScenario(wk, 3, false, []counterOp{opSetM, opSet0}, []counterOp{opInc}),
 			counterScenario(wk, 1, true, []counterOp{opDec, opInc}, []counterOp{opInc, opDec}),
 			counterScenario(wk, 2, true, []counterOp{opSet0, opInc}, []counterOp{opDec}, []counterOp{opInc}),
 		)
@@ -565,7 +569,7 @@ func main() {
 	cli.Main(&cli.Property{
 		ID: "C17", Level: "model_checking", Scenarios: scs,
 		QuickBound: 2, ThoroughBound: 3, QuickUnbounded: true, ThoroughUnbounded: true, Cache: true,
-		RaceHB: &cli.RaceHB{QuickBound: 1, ThoroughBound: 2},
+		RaceHB:    &cli.RaceHB{QuickBound: 1, ThoroughBound: 2},
 		QuickSecs: 40, ThoroughSecs: 600,
 		Rule: "every interleaving of the scripted threads on the real syncutils code under the controlled scheduler (deviation bound, then all interleavings with happens-before state caching); distinct = distinct (outcome, observation log) pairs",
 		Assumptions: []string{
